@@ -50,6 +50,10 @@ def gen(seed):
     if seed % 7 == 0 and "--suppress=doesNotExist:f0.c" not in opts:
         opts.append("--suppress=doesNotExist:f0.c")
         p["supprs"].append({"id": "doesNotExist", "file": "f0.c", "line": -1, "inline": False, "glob": False})
+    if seed % 2 == 0 and p["inline"]:
+        # an inline suppression in code that no configuration analyses: it must NOT be reported as unmatched
+        f0 = p["sources"][0]
+        p["files"][f0] += "#if 0\n// cppcheck-suppress zerodiv\nint never%d(int x) { return x / 0; }\n#endif\n" % seed
     p["opts"] = opts
     return p
 
